@@ -4,7 +4,6 @@ import QmiModel.Props.C20
 #print axioms QmiModel.Adbasic.conflicting_definitions_rejected
 #print axioms QmiModel.Adbasic.violation_rejected_with_position
 #print axioms QmiModel.Adbasic.analyze_outcomes
-#print axioms QmiModel.Adbasic.index_too_long_escapes
 #print axioms QmiModel.Adbasic.ranges_partition
 #print axioms QmiModel.Adbasic.batch_set_eq_single
 #print axioms QmiModel.Adbasic.batch_get_eq_single
@@ -14,5 +13,4 @@ import QmiModel.Props.C20
 #print axioms QmiModel.Adbasic.names_resolve_injectively
 #print axioms QmiModel.Adbasic.batch_get_eq_single_on_parsed_program
 #print axioms QmiModel.Adbasic.parse_terminates
-#print axioms QmiModel.Adbasic.cyclic_include_never_terminates
-#print axioms QmiModel.Adbasic.parse_terminates_needs_acyclicity
+#print axioms QmiModel.Adbasic.include_cycle_parsed_once
